@@ -375,14 +375,14 @@ Theorem C08_reject_active_cid_limit : forall pers ticket ps body v rest,
 Proof. exact reject_active_cid_limit. Qed.
 Print Assumptions C08_reject_active_cid_limit.
 
-Theorem C08_reject_stream_count : forall pers ticket ps body v rest,
+Theorem C08_reject_tparam_stream_count : forall pers ticket ps body v rest,
   params_wf ps -> varint_body body v -> 2 ^ 60 < v ->
   (is_err (unmarshal pers ticket (enc_params ps ++ enc_param TP_ID_mbs body ++ rest)) /\
    unmarshal pers ticket (enc_param TP_ID_mbs body ++ rest) = Err E_TP_STREAMS_BIDI 0) /\
   (is_err (unmarshal pers ticket (enc_params ps ++ enc_param TP_ID_mus body ++ rest)) /\
    unmarshal pers ticket (enc_param TP_ID_mus body ++ rest) = Err E_TP_STREAMS_UNI 0).
 Proof. exact reject_stream_count_pow. Qed.
-Print Assumptions C08_reject_stream_count.
+Print Assumptions C08_reject_tparam_stream_count.
 
 (** original_destination_connection_id, stateless_reset_token, preferred_address and
     retry_source_connection_id sent by a client: rejected whatever length and value they have. *)
